@@ -179,6 +179,7 @@ Json TableDesc::to_json() const {
 	if (no_comments) j["no_comments"] = Json(true);
 	if (ext_reversed) j["ext_reversed"] = Json(true);
 	if (double_image) j["double_image"] = Json(true);
+	if (image_bitpix) j["image_bitpix"] = Json(image_bitpix);
 	return j;
 }
 
@@ -199,6 +200,7 @@ bool TableDesc::from_json(const Json &j, TableDesc &d, std::string &err) {
 	d.no_comments = j.getb("no_comments");
 	d.ext_reversed = j.getb("ext_reversed");
 	d.double_image = j.getb("double_image");
+	d.image_bitpix = (int)j.geti("image_bitpix", 0);
 	if (d.naxes.empty() || d.order.size() != d.naxes.size()) { err = "desc: order/naxes sizes"; return false; }
 	uint64_t n = 1;
 	for (size_t i = 0; i < d.naxes.size(); i++) {
@@ -302,6 +304,7 @@ TableSpec realize(const TableDesc &d) {
 	t.no_comments = d.no_comments;
 	t.ext_reversed = d.ext_reversed;
 	t.double_image = d.double_image;
+	t.image_bitpix = d.image_bitpix;
 	for (uint32_t i = 0; i < t.ndim; i++) t.knots.push_back(make_knots(d.knots, d.seed, i, d.order[i], d.naxes[i]));
 	uint64_t n = d.ncoeffs();
 	t.coeff.resize(n);
@@ -394,6 +397,7 @@ std::vector<TableDesc> simplify_desc(const TableDesc &d) {
 	if (d.extents == "explicit") { TableDesc c = d; c.extents = "default"; out.push_back(c); }
 	if (d.single_order) { TableDesc c = d; c.single_order = false; out.push_back(c); }
 	if (d.double_image) { TableDesc c = d; c.double_image = false; out.push_back(c); }
+	if (d.image_bitpix) { TableDesc c = d; c.image_bitpix = 0; out.push_back(c); }
 	if (d.no_type) { TableDesc c = d; c.no_type = false; out.push_back(c); }
 	if (d.no_comments) { TableDesc c = d; c.no_comments = false; out.push_back(c); }
 	if (d.ext_reversed) { TableDesc c = d; c.ext_reversed = false; out.push_back(c); }
